@@ -281,10 +281,11 @@ pub fn run_pkg(cx: &mut Cx, sub: u64, pkg: &Pkg, rt: &Runtime<NoCtx>, cap: &mut 
                 if r.is_ok() != t.accept {
                     bad.push(json!({"test": name, "mark": t.idx, "ok": r.is_ok(), "block_accepts": t.accept}));
                 }
-                // the reported name names the block that ran
-                let last = name.rsplit('.').next().unwrap_or("");
-                if last != t.name {
-                    bad.push(json!({"test": name, "ran_block_named": t.name}));
+                // the reported name names the block that ran: module path and
+                // test name (the form the repository's own `get_tests` test pins)
+                let want = format!("{}.{}", pkgs::abs_path(pkg.shape, t.module), t.name);
+                if name != want {
+                    bad.push(json!({"test": name, "ran_block": want}));
                 }
             }
             if !bad.is_empty() {
